@@ -5,6 +5,7 @@ Extraction Language OCaml.
 Extraction "C14_model.ml" wire_anchor
   i8 u8 i16 u16 i32 u32 i64 u64 in_ty imin imax common_type
   rotl_m rotr_m set_bit_m reset_bit_m flip_bit_m test_bit_m assign_bit_m
+  set_bit_tpl_m assign_bit_tpl_m reset_bit_tpl_m flip_bit_tpl_m test_bit_tpl_m ipow_base_m
   popcount_m popcount_fallback_m countl_zero_m countl_one_m countr_zero_m countr_one_m
   bit_width_m bit_ceil_m bit_floor_m has_single_bit_m byteswap_m byteswap_fallback_m ntoh_m hton_m
   add_sat_m add_sat_fallback_m div_sat_m saturate_cast_m in_range_m midpoint_m gcd_m lcm_m abs_m
